@@ -21,6 +21,8 @@
 //	slow <u> <rs> <bw> <len>   wall-clock measurement of a throttle with the real 1 s buckets (oracle only)
 //	leak [strict]              close everything, count bucket drain goroutines (oracle only)
 //
+// faults of the wrapped connection (fault.go): fault <id> close | write <n> | read, read <id>, reclose <id>
+//
 // interleaved histories (inter.go):
 //
 //	wstart <id> <hex> <p>      start Conn.Write in the background; the inner conn parks the first inner
@@ -192,6 +194,13 @@ type recConn struct {
 	base    int
 	parked  chan int
 	release chan struct{}
+	// scripted faults of the wrapped connection (fault.go)
+	closeErr  bool // Close reports an error (it still closes)
+	armed     bool
+	failAfter int // armed: the inner Write that would take len(buf) beyond this accepts the part up to it and fails; later writes fail
+	readErr   bool
+	fired     bool // a scripted write fault has struck
+	nClose    int
 }
 
 type addr struct{}
@@ -199,7 +208,14 @@ type addr struct{}
 func (addr) Network() string { return "mem" }
 func (addr) String() string  { return "mem" }
 
-func (c *recConn) Read(b []byte) (int, error) { return 0, fmt.Errorf("EOF") }
+func (c *recConn) Read(b []byte) (int, error) {
+	c.mu.Lock()
+	defer c.mu.Unlock()
+	if c.readErr {
+		return 0, errInjected
+	}
+	return 0, fmt.Errorf("EOF")
+}
 func (c *recConn) Write(b []byte) (int, error) {
 	c.mu.Lock()
 	defer c.mu.Unlock()
@@ -214,10 +230,28 @@ func (c *recConn) Write(b []byte) (int, error) {
 		<-rel
 		c.mu.Lock()
 	}
+	if c.armed && len(c.buf)+len(b) > c.failAfter {
+		room := c.failAfter - len(c.buf)
+		if room < 0 {
+			room = 0
+		}
+		c.buf = append(c.buf, b[:room]...)
+		c.fired = true
+		return room, errInjected
+	}
 	c.buf = append(c.buf, b...)
 	return len(b), nil
 }
-func (c *recConn) Close() error                       { c.mu.Lock(); c.closed = true; c.mu.Unlock(); return nil }
+func (c *recConn) Close() error {
+	c.mu.Lock()
+	defer c.mu.Unlock()
+	c.closed = true
+	c.nClose++
+	if c.closeErr {
+		return errInjected
+	}
+	return nil
+}
 func (c *recConn) LocalAddr() net.Addr                { return addr{} }
 func (c *recConn) RemoteAddr() net.Addr               { return addr{} }
 func (c *recConn) SetDeadline(t time.Time) error      { return nil }
@@ -356,6 +390,7 @@ type ex struct {
 	replaced   int
 	slack      int
 	confirmed  bool                            // a goroutine surplus was confirmed with the long wait
+	noModel    bool                            // after a scripted write fault of the wrapped connection
 	gfast      map[string]*trafficshape.Bucket // shared (global) fast buckets swapped in by the harness, per pattern
 	cfgBuckets []*trafficshape.Bucket          // global buckets of accepted configurations (reaped at the very end of the case)
 	poisoned   string                          // a panic or a hang inside the code under test: the rest of the case is skipped
@@ -506,6 +541,9 @@ func (e *ex) Do(op string) core.Result {
 		if r.Sig == "panic" || r.Sig == "hang" {
 			e.poisoned = r.Sig
 		}
+		if e.noModel { // a scripted write fault is outside the model's domain: the rest of the case is oracle-only
+			r.SkipModel = true
+		}
 		return r
 	case <-time.After(opWatchdog):
 		e.poisoned = "hang"
@@ -559,6 +597,12 @@ func (e *ex) do(op string) core.Result {
 		return e.doWrite(t[1], t[2])
 	case t[0] == "close" && len(t) == 2:
 		return e.doClose(t[1])
+	case t[0] == "fault" && (len(t) == 3 || len(t) == 4):
+		return e.doFault(t[1:])
+	case t[0] == "reclose" && len(t) == 2:
+		return e.doReclose(t[1])
+	case t[0] == "read" && len(t) == 2:
+		return e.doRead(t[1])
 	case t[0] == "par" && len(t) == 7:
 		return e.doPar(t[1:])
 	case t[0] == "slow" && len(t) == 5:
@@ -1132,6 +1176,9 @@ func (e *ex) doWrite(id, hx string) core.Result {
 	t0 := time.Now()
 	n, err := cs.c.Write(data)
 	el := time.Since(t0)
+	if cs.rec.struck() {
+		return e.writeFaulted(id, cs, data, cs.rec.snapshot()[before:], n, err)
+	}
 	return e.wrote(id, cs, data, cs.rec.snapshot()[before:], n, err, el, -1, "w", true)
 }
 
@@ -1405,11 +1452,14 @@ func (e *ex) doClose(id string) core.Result {
 	if !ok || cs.closed || cs.pend != nil || cs.client != nil {
 		return core.Result{Impl: "bad-op"}
 	}
-	cs.c.Close()
+	cerr := cs.c.Close()
 	cs.closed = true
+	if cerr != nil {
+		core.Count("close:wrapped-conn-reported-error")
+	}
 	if d := e.settle(); d != 0 {
 		return core.Result{Impl: "closed", Sig: "c18:leak:conn-local-buckets",
-			Fail: fmt.Sprintf("closing a shaped connection with %d per-shape bucket pairs left %d of its %d drain goroutines running", cs.nLocal, d, 2*cs.nLocal)}
+			Fail: fmt.Sprintf("closing a shaped connection with %d per-shape bucket pairs (Close returned %v) left %d of its %d drain goroutines running", cs.nLocal, cerr, d, 2*cs.nLocal)}
 	}
 	if !cs.rec.closed {
 		return core.Result{Impl: "closed", Sig: "c18:inner-not-closed", Fail: "Conn.Close did not close the wrapped connection"}
